@@ -6,6 +6,8 @@ package main
 import (
 	"fmt"
 	"go/types"
+	"math/big"
+	"sort"
 	"strings"
 
 	"golang.org/x/tools/go/ssa"
@@ -30,6 +32,8 @@ type Obligation struct {
 	Script   string
 	ModelVar map[string]string // names worth reading from the model -> description
 	vc       *VC
+	goalFirst bool
+	Extra     []string // declarations of the Skolem constants of the goal
 }
 
 type VC struct {
@@ -50,6 +54,10 @@ type VC struct {
 	notes      []string
 	globals    map[*ssa.Global]string
 	specDecl   map[string]bool
+	defined    map[string]string // sort|term -> name (hash-consing of definitions)
+	assumed    map[string]bool   // assumptions already emitted
+	qfacts     []qfact           // quantified assumptions, for explicit instantiation at Skolem constants
+	boolDef    map[string]string // definitions of named Bool terms (reach conditions)
 	written    map[string]bool // heap maps written somewhere in this function (incl. inlined callees, callee frames)
 	noDef      int
 	ufs        map[string][2]interface{}
@@ -60,7 +68,7 @@ type VC struct {
 func newVC(e *Engine, fnName string) *VC {
 	vc := &VC{e: e, fnName: fnName, strIDs: map[string]int{}, heapSort: map[string]string{}, declared: map[string]bool{},
 		typeIDs: map[string]int{}, modelVar: map[string]string{}, counters: map[string]int{}, usedExt: map[string]bool{},
-		globals: map[*ssa.Global]string{}, specDecl: map[string]bool{}, written: map[string]bool{}}
+		globals: map[*ssa.Global]string{}, specDecl: map[string]bool{}, written: map[string]bool{}, boolDef: map[string]string{}, defined: map[string]string{}, assumed: map[string]bool{}}
 	vc.decls = append(vc.decls,
 		"(declare-sort Float 0)",
 		"(declare-fun float_zero () Float)",
@@ -119,8 +127,25 @@ func (vc *VC) define(prefix, sort, term string) string {
 	if len(term) < 24 && !strings.Contains(term, " ") {
 		return term
 	}
+	if prev, ok := vc.defined[sort+"|"+term]; ok {
+		return prev // same term already named
+	}
 	n := vc.fresh(prefix)
+	vc.defined[sort+"|"+term] = n
+	if strings.HasPrefix(sort, "(Array ") {
+		// arrays (heap maps, backing arrays) are named by a constant and an
+		// equation rather than by a macro: macros are expanded inside quantifier
+		// patterns, which makes the patterns illegal and the terms huge
+		vc.decls = append(vc.decls, fmt.Sprintf("(declare-fun %s () %s)", n, sort), fmt.Sprintf("(assert (= %s %s))", n, term))
+		return n
+	}
 	vc.decls = append(vc.decls, fmt.Sprintf("(define-fun %s () %s %s)", n, sort, term))
+	if sort == "Bool" {
+		vc.boolDef[n] = term
+	}
+	if iv, ok := vc.e.ar.getIv(term); ok {
+		vc.e.ar.setIv(n, iv.lo, iv.hi)
+	}
 	return n
 }
 
@@ -129,11 +154,92 @@ func (vc *VC) assume(pc, fact string) {
 	if fact == "true" || vc.noDef > 0 {
 		return
 	}
+	var line string
 	if pc == "true" {
-		vc.decls = append(vc.decls, fmt.Sprintf("(assert %s)", fact))
+		line = fmt.Sprintf("(assert %s)", fact)
 	} else {
-		vc.decls = append(vc.decls, fmt.Sprintf("(assert (=> %s %s))", pc, fact))
+		line = fmt.Sprintf("(assert (=> %s %s))", pc, fact)
 	}
+	if vc.assumed[line] {
+		return
+	}
+	vc.assumed[line] = true
+	vc.decls = append(vc.decls, line)
+	vc.collectForalls(fact, pc)
+}
+
+// ---- explicit instantiation of quantified assumptions ------------------------------
+
+type qfact struct {
+	guard   string // condition under which the fact holds
+	q, sort string
+	body    string
+	declIdx int
+}
+
+func (vc *VC) collectForalls(fact, guard string) {
+	switch {
+	case strings.HasPrefix(fact, "(forall (("):
+		args := sexprArgs(fact)
+		if len(args) != 2 {
+			return
+		}
+		binders := sexprList(args[0])
+		if len(binders) != 1 {
+			return
+		}
+		parts := sexprList(binders[0])
+		if len(parts) != 2 || !(parts[1] == "Int" || parts[1] == "(_ BitVec 64)") {
+			return
+		}
+		body := args[1]
+		if strings.HasPrefix(body, "(! ") {
+			if ba := sexprArgs(body); len(ba) >= 1 {
+				body = ba[0]
+			}
+		}
+		if len(vc.qfacts) < 400 {
+			vc.qfacts = append(vc.qfacts, qfact{guard: guard, q: parts[0], sort: parts[1], body: body, declIdx: len(vc.decls)})
+		}
+	case strings.HasPrefix(fact, "(and "):
+		for _, a := range sexprArgs(fact) {
+			vc.collectForalls(a, guard)
+		}
+	case strings.HasPrefix(fact, "(=> "):
+		args := sexprArgs(fact)
+		if len(args) == 2 {
+			vc.collectForalls(args[1], and(guard, args[0]))
+		}
+	}
+}
+
+// instancesFor returns instances of the recorded quantified assumptions at the
+// given Skolem constants (and their neighbours). They are consequences of the
+// assumptions, so adding them is sound; it spares the solver the matching.
+func (vc *VC) instancesFor(sks []string, sorts []string, ndecl int) []string {
+	var out []string
+	for i, sk := range sks {
+		var terms []string
+		if sorts[i] == "Int" {
+			terms = []string{sk, "(+ " + sk + " 1)", "(- " + sk + " 1)"}
+		} else if sorts[i] == "(_ BitVec 64)" {
+			terms = []string{sk, "(bvadd " + sk + " (_ bv1 64))", "(bvsub " + sk + " (_ bv1 64))"}
+		} else {
+			continue
+		}
+		for _, qf := range vc.qfacts {
+			if qf.declIdx > ndecl || qf.sort != sorts[i] {
+				continue
+			}
+			for _, t := range terms {
+				if len(out) >= 90 {
+					return out
+				}
+				out = append(out, fmt.Sprintf("(assert %s)", implies(qf.guard, replaceToken(qf.body, qf.q, t))))
+			}
+		}
+	}
+	return out
 }
 
 func (vc *VC) oblige(kind, pc, goal, note string) *Obligation {
@@ -146,9 +252,121 @@ func (vc *VC) oblige(kind, pc, goal, note string) *Obligation {
 			name = fmt.Sprintf("%s~%d", kind, n)
 		}
 	}
-	o := &Obligation{Name: vc.fnName + "#" + name, Func: vc.fnName, Kind: name, NDecl: len(vc.decls), PC: pc, Goal: goal, Mode: vc.e.ar.mode, Note: note, vc: vc}
-	vc.obligs = append(vc.obligs, o)
-	return o
+	// A reach condition that is a disjunction of paths (a merged state) is split:
+	// one query per disjunct. The parts form one obligation (suffix /e<k>).
+	parts := vc.splitPC(pc, 8)
+	if goal == "false" && len(parts) > 1 {
+		parts = []string{pc} // covers and unreachability are about the whole condition
+	}
+	var first *Obligation
+	for i, p := range parts {
+		nm := name
+		if len(parts) > 1 {
+			nm = fmt.Sprintf("%s/e%d", name, i+1)
+		}
+		sg, extra := vc.skolemize(goal)
+		if len(extra) > 0 {
+			var sks, sorts []string
+			for _, d := range extra {
+				f := strings.Fields(d) // (declare-fun NAME () SORT...)
+				sks = append(sks, f[1])
+				sorts = append(sorts, strings.TrimSuffix(strings.Join(f[3:], " "), ")"))
+			}
+			extra = append(extra, vc.instancesFor(sks, sorts, len(vc.decls))...)
+		}
+		o := &Obligation{Name: vc.fnName + "#" + nm, Func: vc.fnName, Kind: nm, NDecl: len(vc.decls), PC: p, Goal: sg, Extra: extra, Mode: vc.e.ar.mode, Note: note, vc: vc}
+		vc.obligs = append(vc.obligs, o)
+		if first == nil {
+			first = o
+		}
+	}
+	return first
+}
+
+// splitPC expands a reach condition into disjuncts (through named definitions,
+// `or`, and one level of `and`), at most max of them.
+func (vc *VC) splitPC(pc string, max int) []string {
+	var rec func(t string, depth int) []string
+	rec = func(t string, depth int) []string {
+		if depth > 12 {
+			return []string{t}
+		}
+		if d, ok := vc.boolDef[t]; ok {
+			r := rec(d, depth+1)
+			if len(r) == 1 {
+				return []string{t}
+			}
+			return r
+		}
+		if strings.HasPrefix(t, "(or ") {
+			args := sexprArgs(t)
+			var out []string
+			for _, a := range args {
+				out = append(out, rec(a, depth+1)...)
+			}
+			return out
+		}
+		if strings.HasPrefix(t, "(and ") {
+			args := sexprArgs(t)
+			outs := []string{""}
+			for _, a := range args {
+				ra := rec(a, depth+1)
+				if len(outs)*len(ra) > max {
+					ra = []string{a}
+				}
+				var next []string
+				for _, o := range outs {
+					for _, x := range ra {
+						if o == "" {
+							next = append(next, x)
+						} else {
+							next = append(next, "(and "+o+" "+x+")")
+						}
+					}
+				}
+				outs = next
+			}
+			return outs
+		}
+		return []string{t}
+	}
+	r := rec(pc, 0)
+	if len(r) <= 1 || len(r) > max {
+		return []string{pc}
+	}
+	return r
+}
+
+// sexprArgs returns the arguments of "(op a b ...)".
+func sexprArgs(t string) []string {
+	body := t[1 : len(t)-1]
+	i := strings.IndexByte(body, ' ')
+	if i < 0 {
+		return nil
+	}
+	body = body[i+1:]
+	var out []string
+	d := 0
+	start := 0
+	for j := 0; j < len(body); j++ {
+		switch body[j] {
+		case '(':
+			d++
+		case ')':
+			d--
+		case ' ':
+			if d == 0 {
+				if j > start {
+					out = append(out, body[start:j])
+				}
+				start = j + 1
+			}
+		}
+	}
+	if start < len(body) {
+		out = append(out, body[start:])
+	}
+	return out
 }
 
 func (vc *VC) cover(kind, pc string) {
@@ -184,8 +402,19 @@ func (o *Obligation) script(withModel bool) string {
 		b.WriteString(d)
 		b.WriteByte('\n')
 	}
-	b.WriteString(fmt.Sprintf("(assert %s)\n", o.PC))
-	b.WriteString(fmt.Sprintf("(assert (not %s))\n", o.Goal))
+	for _, d := range o.Extra {
+		b.WriteString(d)
+		b.WriteByte('\n')
+	}
+	if o.goalFirst {
+		// same query, other assertion order: quantifier instantiation in the
+		// solvers is sensitive to it, so both orders race in the portfolio
+		b.WriteString(fmt.Sprintf("(assert (not %s))\n", o.Goal))
+		b.WriteString(fmt.Sprintf("(assert %s)\n", o.PC))
+	} else {
+		b.WriteString(fmt.Sprintf("(assert %s)\n", o.PC))
+		b.WriteString(fmt.Sprintf("(assert (not %s))\n", o.Goal))
+	}
 	b.WriteString("(check-sat)\n")
 	if withModel {
 		var names []string
@@ -391,8 +620,14 @@ func (e *Engine) merge(states []*State) *State {
 	out := states[0].clone()
 	for _, s := range states[1:] {
 		c := s.pc // value from s when s.pc holds
-		// cells
-		for cell, v := range s.cells {
+		// cells (deterministic order: generated names must not depend on map iteration)
+		cellList := make([]*Cell, 0, len(s.cells))
+		for cell := range s.cells {
+			cellList = append(cellList, cell)
+		}
+		sort.Slice(cellList, func(i, j int) bool { return cellList[i].id < cellList[j].id })
+		for _, cell := range cellList {
+			v := s.cells[cell]
 			ov, ok := out.cells[cell]
 			if !ok {
 				out.cells[cell] = v
@@ -407,7 +642,12 @@ func (e *Engine) merge(states []*State) *State {
 		for k := range out.heap {
 			names[k] = true
 		}
+		nameList := make([]string, 0, len(names))
 		for k := range names {
+			nameList = append(nameList, k)
+		}
+		sort.Strings(nameList)
+		for _, k := range nameList {
 			srt := vc.heapSort[k]
 			a := e.heapGet(s, k, srt)
 			b := e.heapGet(out, k, srt)
@@ -422,7 +662,12 @@ func (e *Engine) merge(states []*State) *State {
 		for k := range out.ghost {
 			gn[k] = true
 		}
+		gnList := make([]string, 0, len(gn))
 		for k := range gn {
+			gnList = append(gnList, k)
+		}
+		sort.Strings(gnList)
+		for _, k := range gnList {
 			a, aok := s.ghost[k]
 			b, bok := out.ghost[k]
 			if aok && bok && a != b {
@@ -514,10 +759,16 @@ func (e *Engine) assumeLeafRange(l Leaf, n string, pc string, st *State) {
 	case lkInt:
 		w, s, _ := intInfo(l.Typ)
 		e.vc.assume("true", e.ar.InRange(n, w, s))
+		if e.ar.mode == ModeInt {
+			e.ar.setTypeIv(n, w, s)
+		}
 	case lkIdx:
 		// off/len/cap are non-negative ints
 		e.vc.assume("true", e.ar.Cmp(tokGEQ, n, e.ar.ConstI(0, 64, true), true))
 		e.vc.assume("true", e.ar.InRange(n, 64, true))
+		if e.ar.mode == ModeInt {
+			e.ar.setIv(n, big.NewInt(0), new(big.Int).Sub(pow2(63), big.NewInt(1)))
+		}
 	case lkRef, lkVal:
 		if st != nil {
 			e.vc.assume("true", fmt.Sprintf("(and (<= 0 %s) (<= %s %s))", n, n, st.wm))
@@ -546,4 +797,81 @@ func (vc *VC) ufDecls() []string {
 		out = append(out, fmt.Sprintf("(assert (forall ((x Int) (y Int)) (! %s :pattern ((%s x y)))))", a.InRange(fmt.Sprintf("(%s x y)", n), w, s), n))
 	}
 	return out
+}
+
+// skolemize replaces universally quantified variables in positive positions of
+// a goal (top level, right of =>, inside and) by fresh constants. The query
+// asserts the negated goal, so this is ordinary Skolemization done here rather
+// than left to the solver (which, with patterns attached, handles it poorly).
+func (vc *VC) skolemize(goal string) (string, []string) {
+	var decls []string
+	var rec func(g string) string
+	rec = func(g string) string {
+		switch {
+		case strings.HasPrefix(g, "(forall ("):
+			// (forall ((q S) ...) BODY)
+			args := sexprArgs(g)
+			if len(args) != 2 {
+				return g
+			}
+			binders := sexprList(args[0])
+			body := args[1]
+			if strings.HasPrefix(body, "(! ") {
+				ba := sexprArgs(body)
+				if len(ba) >= 1 {
+					body = ba[0]
+				}
+			}
+			for _, b := range binders {
+				parts := sexprList(b)
+				if len(parts) != 2 {
+					return g
+				}
+				sk := vc.fresh("sk_" + strings.SplitN(parts[0], "!", 2)[0])
+				decls = append(decls, fmt.Sprintf("(declare-fun %s () %s)", sk, parts[1]))
+				body = replaceToken(body, parts[0], sk)
+			}
+			return rec(body)
+		case strings.HasPrefix(g, "(=> "):
+			args := sexprArgs(g)
+			if len(args) != 2 {
+				return g
+			}
+			return "(=> " + args[0] + " " + rec(args[1]) + ")"
+		case strings.HasPrefix(g, "(and "):
+			args := sexprArgs(g)
+			out := make([]string, len(args))
+			for i, a := range args {
+				out[i] = rec(a)
+			}
+			return "(and " + strings.Join(out, " ") + ")"
+		}
+		return g
+	}
+	r := rec(goal)
+	return r, decls
+}
+
+// sexprList returns the elements of "(a b c)".
+func sexprList(t string) []string {
+	return sexprArgs("(_ " + t[1:])
+}
+
+func replaceToken(s, tok, by string) string {
+	var b strings.Builder
+	for i := 0; i < len(s); {
+		if strings.HasPrefix(s[i:], tok) {
+			before := i == 0 || s[i-1] == ' ' || s[i-1] == '('
+			j := i + len(tok)
+			after := j == len(s) || s[j] == ' ' || s[j] == ')'
+			if before && after {
+				b.WriteString(by)
+				i = j
+				continue
+			}
+		}
+		b.WriteByte(s[i])
+		i++
+	}
+	return b.String()
 }
